@@ -88,6 +88,18 @@ def real_outputs(inp):
         ways.append(('feed-bytes-halves', list(p)))
     except Exception as e:
         ways.append(('feed-bytes-halves', e))
+    import array
+    for label, mkc in (('array-H', lambda: array.array('H', inp)), ('array-q', lambda: array.array('q', inp)),
+                       ('memoryview-array-i', lambda: memoryview(array.array('i', inp))), ('range-or-tuple', lambda: tuple(inp))):
+        try:
+            if len(inp) % 2:
+                ways.append(('parse_all-' + label, mido.parse_all(mkc())))
+            else:
+                p = mido.Parser()
+                p.feed(mkc())
+                ways.append(('feed-' + label, list(p)))
+        except Exception as e:
+            ways.append(('feed-' + label, e))
     try:
         r = mido.parse(inp)
         ways.append(('parse', [] if r is None else [r]))
